@@ -1,4 +1,4 @@
-//@serves C10
+//@serves C10 C01 C04
 //@tier A
 //@include prelude/head.rs
 verus! {
@@ -35,6 +35,12 @@ pub mod utils {
 }
 // The two `Lazy` statics whose initialisers run at first use inside library operations (R7 gives the
 // closure body a function of its own; `expect` is a panic-freedom obligation, C10):
+/// rigid: the one-time probe `openat2(AT_FDCWD, ".", {})` of this process succeeds (reviewed exception of the C05 scan:
+/// cwd-relative, no RESOLVE_* bits, result dropped at once)
+pub uninterp spec fn openat2_probe_succeeds() -> bool;
+#[verifier::external_body]
+pub fn openat2_probe_cwd() -> (r: Result<OwnedFd, SyscallError>) ensures r is Ok <==> openat2_probe_succeeds() { unimplemented!() }
+//@item src/syscalls.rs :: static OPENAT2_IS_SUPPORTED | sub.static_openat2_supported
 //@item src/procfs.rs :: static GLOBAL_PROCFS_HANDLE | sub.static_global_procfs
 //@item src/resolvers/opath/imp.rs :: static PROTECTED_SYMLINKS_SYSCTL | sub.static_sysctl
 } // verus!
